@@ -139,8 +139,20 @@ func c09PooledVM(s *sim.Sim, p *sim.Params) {
 	if !s.WaitTimeout(5*time.Minute, host) {
 		s.Fail("deadlock", s.BlockedSitesOf(host), "executions on the reused VM did not complete: "+s.BlockedSummary())
 	}
+	if s.Choose(sim.SWork, 3) == 0 {
+		// the host comes back for the results much later (a minute: longer than any await waits)
+		s.Sleep([]time.Duration{31 * time.Second, time.Minute, 10 * time.Minute}[s.Choose(sim.SWork, 3)])
+		s.Probe("results-collected-much-later")
+	}
 	for i, f := range futs {
 		got, err := c09vmAwait(s, f)
+		// every await of the same future yields the same, whenever it is made
+		for k := 0; k < 3; k++ {
+			again, err2 := c09vmAwait(s, f)
+			if again != got || fmt.Sprint(err2) != fmt.Sprint(err) {
+				s.Fail("oracle", "pooled-vm:awaits-disagree", fmt.Sprintf("the future of program %d yielded %s (err=%v) to one await and %s (err=%v) to a later one", i, got, err, again, err2))
+			}
+		}
 		sample = append(sample, fmt.Sprintf("program %d: block -> %s err=%v (alone: %s)", i, got, err, progs[i].want))
 		if err != nil {
 			s.Fail("oracle", "pooled-vm:block-failed", fmt.Sprintf("the block of program %d failed with %v on a VM that was reset and reused while it ran; alone it yields %s\n%s", i, err, progs[i].want, progs[i].src))
